@@ -512,7 +512,9 @@ def expr_replacements(names):
     b = names[-1]
     res = ["g()", "g({{%s}})" % a, "g({{%s}}, {{%s}})" % (a, a), "{{%s}} * 2" % a, "{{%s}}" % a,
            "h({{%s}}, {{%s}})" % (b, a), "{{%s}} - {{%s}}" % (a, b), "g(\n    {{%s}}\n)" % a,
-           "-{{%s}}" % b, "{{%s}} < {{%s}}" % (a, b), "k({{root}})"]
+           "-{{%s}}" % b, "{{%s}} < {{%s}}" % (a, b), "k({{root}})",
+           # deleting an expression: neither the plain nor the `pass` candidate parses (rolled back)
+           ""]
     return res
 
 
@@ -1111,7 +1113,10 @@ CLI_TREES = [
      "pkg/c.py": "def k(u):\n    if u:\n        x = f(f(u))\n    return f(u) * 2\n",
      "pkg/sub/d.py": "if q:\n    f(1)\n    g(2)\nh()",
      "pkg/notes.txt": "w = f(9)\n",
-     "other/e.py": "v = f(7)\n"},
+     "other/e.py": "v = f(7)\n",
+     # \r\n line endings: with a match (the untouched line keeps its \r\n) and without (bytes untouched)
+     "pkg/crlf_match.py": "v = f(1)\r\nw = 2\r\n",
+     "pkg/crlf_nomatch.py": "v = 1\r\nw = 2\r\n"},
 ]
 CLI_CALLS = [
     # pattern, replacement, path arguments (relative to the tree)
